@@ -273,6 +273,9 @@ class Interp:
             return True
         if isinstance(f, ast.Name) and f.id == "print":
             return True
+        if isinstance(f, ast.Attribute) and f.attr == "flush" and isinstance(f.value, ast.Attribute) and isinstance(f.value.value, ast.Name) \
+                and f.value.value.id == "sys" and f.value.attr in ("stdout", "stderr"):
+            return True                      # sys.stdout.flush() / sys.stderr.flush(): no effect on program state (dropped)
         return False
 
     def exc_name(self, node, env):
@@ -339,6 +342,15 @@ class Interp:
         d = fr[3]
         d[what] = d.get(what, 0) + 1
         return d[what] - 1
+
+    def loop_ordinal(self, s):
+        """loops are numbered in SOURCE order within their function (0, 1, ...), whichever path reaches them"""
+        node = self.cur_fn[-1][2]
+        loops = sorted(((n.lineno, n.col_offset) for n in ast.walk(node) if isinstance(n, (ast.For, ast.While))))
+        try:
+            return loops.index((s.lineno, s.col_offset))
+        except ValueError:
+            return self.next_ordinal("loop")
 
     def truth(self, v, lineno=None):
         if isinstance(v, Forall):
@@ -647,7 +659,7 @@ class Interp:
         return None
 
     def do_while(self, s, env):
-        k = self.next_ordinal("loop")
+        k = self.loop_ordinal(s)
         spec = self.loop_specs.get((self.fn_name().split("::")[-1], k))
         if spec is None:
             # bounded concrete unrolling only if the test is concrete on every iteration
@@ -669,7 +681,7 @@ class Interp:
         spec.run_while(self, s, env, k)
 
     def loop_with_invariant(self, s, env, it):
-        k = self.next_ordinal("loop")
+        k = self.loop_ordinal(s)
         spec = self.loop_specs.get((self.fn_name().split("::")[-1], k))
         if spec is None:
             raise Unsupported("for loop over a symbolic iterable without invariant (%s loop %d)" % (self.fn_name(), k))
@@ -1415,6 +1427,16 @@ class Interp:
             return it.count, it.at
         if hasattr(it, "sym_rows"):
             return it.sym_rows(self)
+        from .pybuiltins import SymIter
+        if isinstance(it, SymIter):
+            # `for x in iterator`: the remaining items; the ghost position advances with the loop and is n afterwards
+            p0 = it.pos
+
+            def elem(j, it=it, p0=p0):
+                v = it.pull(self, conc(I(p0) + I(j)))
+                it.pos = conc(I(p0) + I(j) + 1)
+                return v
+            return conc(Max(I(it.n) - I(p0), 0)), elem
         if isinstance(it, SymZip):
             parts = [self.sym_iter(p) for p in it.parts]
             n = parts[0][0]
